@@ -317,8 +317,32 @@ func NewFixture(methods []*MethodSpec, sc *serviceconfig.Service, opts ...larkin
 		return nil, err
 	}
 	fx.Mux = mux
-	fx.registerAll()
+	if !fixtureDeferRegistration {
+		fx.registerAll()
+	}
 	return fx, nil
+}
+
+// fixtureDeferRegistration makes NewFixture skip registration (the caller registers the
+// ServiceDescs itself, one by one).
+var fixtureDeferRegistration bool
+
+// RegisterOne registers a single service and reports error / panic.
+func (fx *Fixture) RegisterOne(name string) (err error, panicked interface{}) {
+	for _, sd := range fx.ServiceDescs() {
+		if sd.ServiceName != fxPkg+"."+name {
+			continue
+		}
+		func() {
+			defer func() {
+				if r := recover(); r != nil {
+					panicked = r
+				}
+			}()
+			err = fx.Mux.VerifRegisterService(sd, nil)
+		}()
+	}
+	return
 }
 
 func (fx *Fixture) MsgDesc(name string) protoreflect.MessageDescriptor {
